@@ -553,6 +553,47 @@ impl ChainCtl {
 	}
 }
 
+/// Mine one block on the current head from outside `ChainCtl` (used by node-event
+/// tasks that run as threads under the scheduler): reward to a throw-away key.
+pub fn mine_standalone(chain: &Arc<Chain>, sh: &Arc<NodeShared>, kc: &ExtKeychain, key_index: u32, with_txs: bool) -> Result<u64, String> {
+	let prev = chain.head_header().map_err(|e| format!("{}", e))?;
+	let mut txs: Vec<Transaction> = vec![];
+	if with_txs {
+		let pool = sh.mempool.lock().unwrap().clone();
+		let mut used: Vec<pedersen::Commitment> = vec![];
+		for tx in pool {
+			if chain.validate_tx(&tx).is_err() || chain.verify_coinbase_maturity(&tx.inputs()).is_err() {
+				continue;
+			}
+			let ins = commits_in(&tx);
+			if ins.iter().any(|c| used.contains(c)) {
+				continue;
+			}
+			used.extend(ins);
+			txs.push(tx);
+		}
+	}
+	let fees = txs.iter().map(|t| t.fee()).sum();
+	let id = ExtKeychain::derive_key_id(3, 8, 8, key_index, 0);
+	let reward = reward::output(kc, &ProofBuilder::new(kc), &id, fees, false).map_err(|e| format!("{:?}", e))?;
+	let diff_iter = chain::store::DifficultyIter::from(prev.hash(), chain.store());
+	let next_header_info = consensus::next_difficulty(prev.height + 1, diff_iter);
+	let mut b = Block::new(&prev, &txs, next_header_info.clone().difficulty, reward).map_err(|e| format!("{:?}", e))?;
+	b.header.timestamp = prev.timestamp + chrono::Duration::seconds(60);
+	b.header.pow.secondary_scaling = next_header_info.secondary_scaling;
+	chain.set_txhashset_roots(&mut b).map_err(|e| format!("{}", e))?;
+	pow::pow_size(&mut b.header, next_header_info.difficulty, global::proofsize(), global::min_edge_bits()).map_err(|e| format!("{:?}", e))?;
+	let h = b.header.height;
+	chain.process_block(b, chain::Options::MINE).map_err(|e| format!("{}", e))?;
+	// drop what is mined or no longer valid from the pool
+	let mut pool = sh.mempool.lock().unwrap();
+	pool.retain(|tx| {
+		let on_chain = chain.get_kernel_height(&tx.kernels()[0].excess, None, None).ok().flatten().is_some();
+		!on_chain && chain.validate_tx(tx).is_ok()
+	});
+	Ok(h)
+}
+
 #[allow(dead_code)]
 pub fn ident_hex(i: &Identifier) -> String {
 	i.to_hex()
